@@ -377,9 +377,9 @@ def run_shard(spec):
 
 def check_floors(counters, evaluations, tier):
     msgs = []
-    for key, frac in (('refused', 0.5),
-                      ('refused-after-reaching-validate', 0.3),
-                      ('refused-conflict', 0.05)):
+    for key, frac in (('refused', 0.35),
+                      ('refused-after-reaching-validate', 0.25),
+                      ('refused-conflict', 0.04)):
         if counters.get(key, 0) < frac * evaluations:
             msgs.append("%s in only %d of %d cases" % (
                 key, counters.get(key, 0), evaluations))
